@@ -214,10 +214,18 @@ SPECIAL = [b"\"", b",", b"\t", b"\r", b"\n", b"\x00", b"\xff", b"\xef\xbb\xbf", 
 
 
 def mutate(r, data):
-    kind = r.choice(["truncate", "flip", "overwrite", "insert", "delete", "duplicate", "overwrite", "insert", "sepline"])
+    kind = r.choice(["truncate", "flip", "overwrite", "insert", "delete", "duplicate", "overwrite", "insert", "sepline", "mbline"])
     if not data:
         return data + r.choice(SPECIAL), "insert@0"
     k = r.below(len(data))
+    if kind == "mbline":
+        # a line (or the rest of one) of well-formed multi-byte characters: shorter in characters than in bytes
+        mb = r.choice(["\u6771\u4eac\u90fd\u6e2f\u533a", "\u00e9\u00e8\u00fc", "\u2192\u21d2", "\U0001f600\U0001f601", "a\u0301\u0302", "\u6771 \u4eac",
+                       "x\u3000y"]).encode() * r.choice([1, 1, 2, 5])
+        end = data.find(b"\n", k)
+        end = len(data) if end < 0 else end
+        start = data.rfind(b"\n", 0, k) + 1 if r.chance(0.6) else k
+        return data[:start] + mb + data[end:], "mbline@%d+%d" % (start, len(mb))
     if kind == "sepline":
         # a line made of field separators only, with fewer, as many or more fields than its neighbours
         line = r.choice([b",", b"\t", b" ", b";", b"|", b"=", b":"]) * r.choice([1, 2, 3, 4, 5, 8, 13])
